@@ -63,7 +63,7 @@ def LabelsBs (d : Dfa) : Prop := ∀ e ∈ d.edges, PlainBs [e.label]
 theorem labelsBs_plain (d : Dfa) (h : LabelsBs d) : d.PlainLabels := by
   intro e he
   obtain ⟨as, hne, _, hs⟩ := h e he _ List.mem_cons_self
-  exact ⟨untok as, untok_ne_nil as hne, hs⟩
+  rw [hs]; exact plainish_ofStr _ (untok_ne_nil as hne)
 
 theorem initRow_wf (cap esc : Bool) (N : Nat) (states : List Nat) (i : Nat) (es : List Edge) (hes : ∀ e ∈ es, PlainBs [e.label]) :
     ∀ (a : Mat), a.Sq N → (∀ i j, OWF (a.get i j) ∧ OSolid (a.get i j)) →
